@@ -54,11 +54,31 @@ def load_specs(modname):
     return out
 
 
-def _renumber(t, lvnum=None):
+def _mask(t, lvnum):
+    """local identities removed: carried names, loop line numbers, allocation ids (used to rank loop-carried values structurally)"""
+    def rule(x):
+        h = x[0] if x else None
+        if h == 'carried':
+            return ('carried', '?')
+        if h == 'after':
+            return ('after', '?', x[2])
+        if h == 'loopvar':
+            k = lvnum.get((x[1], x[2]))
+            return ('loopvar', f"#v{k}" if k is not None else '?', x[2])
+        if h == 'undef':
+            return ('undef', '?')
+        if h == 'call' and len(x) > 4 and x[4] is not None:
+            return x[:4] + ('?',)
+        return None
+    return subst(t, rule)
+
+
+def _renumber(t, lvnum=None, cvnum=None):
     """line numbers out of 'after' wrappers, loop / handler markers; loop variables numbered by the program order of their
     loops (lvnum), carried names and allocation / draw identities by first appearance"""
     names = {}
     lvnum = lvnum or {}
+    cvnum = cvnum or {}
 
     def num(kind, key):
         k = (kind, key)
@@ -78,7 +98,8 @@ def _renumber(t, lvnum=None):
         if h == 'carried':
             if isinstance(x[1], str) and x[1].startswith('#'):
                 return None
-            return ('carried', num('c', (x[1], x[2] if len(x) > 2 else None)),) + tuple(x[2:])
+            k = cvnum.get((x[1], digest(x[2]) if len(x) > 2 else None))
+            return ('carried', f"#c{k}" if k is not None else num('d', (x[1], x[2] if len(x) > 2 else None)),) + tuple(x[2:])
         if h == 'undef':
             return ('undef', '#')
         if h == 'call' and len(x) > 4 and x[4] is not None and not (isinstance(x[4], str) and x[4].startswith('#')):
@@ -92,36 +113,50 @@ def _renumber(t, lvnum=None):
 _N = Normaliser()
 
 
-def _size(t, memo, cap=400):
-    """number of nodes of the term seen as a tree (what a tree-walking normaliser would visit), capped"""
-    if not isinstance(t, tuple):
-        return 1
-    k = id(t)
-    if k in memo:
-        return memo[k]
-    n = 1
-    for x in t:
-        n += _size(x, memo, cap)
-        if n > cap:
-            break
-    memo[k] = n
-    return n
+_ARITH_CALLS = {'numpy.log', 'math.log', 'numpy.exp', 'math.exp', 'numpy.minimum', 'math.lgamma', 'scipy.special.gammaln'}
+
+
+def _is_arith(x):
+    return bool(x) and ((x[0] == 'bin' and x[1] in ('Add', 'Sub', 'Mult', 'Div')) or (x[0] == 'un' and x[1] in ('USub', 'UAdd'))
+                        or (x[0] == 'call' and x[1] in _ARITH_CALLS and len(x[2]) in (1, 2) and not x[3]) or x[0] == 'lin'
+                        or (x[0] == 'const' and isinstance(x[1], (int, float)) and not isinstance(x[1], bool)))
 
 
 def _arith(t):
-    """replace small maximal arithmetic sub-terms by the key of their linear normal form (large ones - whole kernels folded into
-    one expression - are compared structurally: their normal form would be exponentially large)"""
+    """replace maximal arithmetic sub-terms by the key of their linear normal form (`a - b` and `-b + a`, `t*(a + b)` and
+    `t*a + t*b`, `log(a/b)` and `log a - log b` compare equal).  The normal form is taken of the arithmetic *skeleton*: whatever
+    is not itself arithmetic becomes an atom named by the digest of its own normalised form, so the cost does not depend on the
+    size of the operands."""
     memo = {}
 
-    def rule(x):
-        if x and x[0] == 'bin' and x[1] in ('Add', 'Sub', 'Mult', 'Div') and _size(x, memo) <= 400:
+    def skel(x):
+        if not _is_arith(x):
+            return ('name', 'atom:' + digest(go(x)))
+        if x[0] == 'bin':
+            return ('bin', x[1], skel(x[2]), skel(x[3]))
+        if x[0] == 'un':
+            return ('un', x[1], skel(x[2]))
+        if x[0] == 'call':
+            return ('call', x[1], tuple(skel(a) for a in x[2]), (), None)
+        return x
+
+    def go(x):
+        if not isinstance(x, tuple):
+            return x
+        k = id(x)
+        hit = memo.get(k)
+        if hit is not None and hit[0] is x:
+            return hit[1]
+        if x and x[0] == 'bin' and x[1] in ('Add', 'Sub', 'Mult', 'Div'):
             try:
-                lin = _N.N(x)
+                r = ('lin', hashlib.sha1(repr(_N.N(skel(x)).key()).encode()).hexdigest()[:24])
             except Exception:
-                return None
-            return ('lin', repr(lin.key()))
-        return None
-    return subst(t, rule)
+                r = tuple(go(y) for y in x)
+        else:
+            r = tuple(go(y) for y in x)
+        memo[k] = (x, r)
+        return r
+    return go(t)
 
 
 _DG = {}
@@ -164,19 +199,19 @@ def _resort(t):
     return subst(t, rule)
 
 
-def norm(t, lvnum=None):
+def norm(t, lvnum=None, cvnum=None):
     if not isinstance(t, tuple):
         return t
-    return _resort(_renumber(simplify(t), lvnum))
+    return _resort(_renumber(simplify(t), lvnum, cvnum))
 
 
-def _cond_key(conds, lvnum=None):
+def _cond_key(conds, lvnum=None, cvnum=None):
     out = []
     for c, pol in conds:
         if isinstance(c, tuple) and c and c[0] in ('inloop',):
             continue
         out.append((c, pol))
-    return tuple(sorted(((digest(norm(c, lvnum)), pol) for c, pol in atoms(out))))
+    return tuple(sorted(((digest(norm(c, lvnum, cvnum)), pol) for c, pol in atoms(out))))
 
 
 class Summary:
@@ -191,6 +226,23 @@ class Summary:
                 for tn in ev.data[1]:
                     lvnum.setdefault((tn, ev.data[0]), len(lvnum))
         self.lvnum = lvnum
+        # loop-carried values are ranked by what they are (loop, initial value, update), not by the order in which a traversal
+        # happens to meet them: `x - llk` and `-llk + x` must give the same numbering
+        loop_ord, ranked = {}, []
+        for ev in r.events:
+            if ev.kind == 'loop_enter':
+                loop_ord.setdefault(id(ev.node), len(loop_ord))
+        for ev in r.events:
+            if ev.kind == 'carry':
+                entry, body = ev.data
+                init = entry[2] if len(entry) > 2 else None
+                key = (loop_ord.get(id(ev.node), -1), digest(_mask(simplify(init), lvnum)) if init is not None else '',
+                       digest(_arith(_resort(_mask(simplify(body), lvnum)))))
+                ranked.append((key, len(ranked), (entry[1], digest(init) if init is not None else None)))
+        cvnum = {}
+        for _, _, ident in sorted(ranked):
+            cvnum.setdefault(ident, len(cvnum))
+        self.cvnum = cvnum
         for ev in r.events:
             k = ev.kind
             if k in _SKIP:
@@ -219,17 +271,17 @@ class Summary:
                 data = ('const', d[0])
             else:
                 data = ('const', None)
-            self.entries.append((k, _cond_key(ev.conds, lvnum), norm(data, lvnum), ev.lineno))
+            self.entries.append((k, _cond_key(ev.conds, lvnum, cvnum), norm(data, lvnum, cvnum), ev.lineno))
         self.calls = []         # (callee qname, condkey, call term, lineno): every call evaluated, wherever it is written
         for t, conds, node in r.calls:
-            self.calls.append((t[1], _cond_key(conds, lvnum), norm(t, lvnum), getattr(node, 'lineno', 0)))
+            self.calls.append((t[1], _cond_key(conds, lvnum, cvnum), norm(t, lvnum, cvnum), getattr(node, 'lineno', 0)))
         self.finals = {}
         for p in f.params:
             v = r.env.get(p)
             if v is not None and v != ('param', p):
                 # only mutation matters: a rebound parameter that is never returned is invisible to the caller
                 if any(x[0] in ('upd', 'out', 'havoc') for x in walk(v)) and _rooted_in_param(v, p):
-                    self.finals[p] = norm(v, lvnum)
+                    self.finals[p] = norm(v, lvnum, cvnum)
 
     def keys(self, arith=False):
         f = (lambda t: digest(_arith(t))) if arith else digest
